@@ -534,3 +534,5 @@ META = {
     'not_decided': 'that a concrete password is reproduced end to end; probabilities summing to 1 as numbers (C06)',
     'technique': 'writer/reader table extraction and relational join + index-domain slice rules',
 }
+
+META['explanation'] += ' ' + 'Further: loader bundle (layout, strip, encoding, completeness) and the segmentation bundle shared from C05 (splice discipline, slice tiling, multi-word parts, totality); counted value = labelled segment.'
